@@ -47,7 +47,7 @@ impl Submissions {
         // underflow.
         let head = load_kernel_shared(shared.submissions_head);
         let tail = load_kernel_shared(shared.submissions_tail);
-        if tail.wrapping_sub(head) > len {
+        if tail.wrapping_sub(head) >= len {
             #[cfg(a10_verif)]
             crate::verif::emit("SqFull", [shared.id(), 1, u64::from(head), u64::from(tail), 0, 0]);
             unlock(submissions_guard);
